@@ -226,6 +226,7 @@ function exec(ex, kind, a, objs, ptr, bufs, violations, t, i, mem, ctx) {
       const p = Number(ex.finder_needle_ptr(o.h)), l = Number(ex.finder_needle_len(o.h));
       return R.bytes(Array.from(mem().subarray(p, p + l)));
     }
+    case 'HugeCount': case 'HugeFindIter': return R.skip();
     case 'FinderRepeat': {
       const o = objs.get(a.f); if (!o || o.k !== 'Fwd') return R.skip();
       const [hp, hl] = H(a.hay); return opt(ex.finder_find(o.h, hp, hl, 0));
